@@ -93,7 +93,12 @@ def load(text, how=0):
     import shutil
     import tempfile
     from vmon.oracle.util import worker_dir
-    p = os.path.join(worker_dir(), "x.cif")           # the same path from case to case, each time with other content
+    name = ["x.cif", "x.cif", "x.cif.tmp", "x.txt", "x.lmpdat"][len(text) % 5]       # the extension need not say "cif" when the format is named explicitly
+    p = os.path.join(worker_dir(), name)           # the same path from case to case, each time with other content
+    if name != "x.cif":
+        with open(p, "w") as f:
+            f.write(text)
+        return Atoms.load(p if how == 1 else pathlib.Path(p), filetype="cif")
     from vmon.oracle.util import prime_path
     prime_path(p)
     with open(p, "w") as f:
@@ -373,14 +378,17 @@ def run_case(case, ctx):
             ctx.fail("second write/read of the same object at the same path after an in-place edit: %s" % msg, witness=dict(w2, clause=cls))
         d = tempfile.mkdtemp(prefix="vmon-c15-")
         try:
-            pth = os.path.join(d, "same.cif")
+            name = ["same.cif", "same.cif.bak", "same.txt", "same.cif", "same.lmpdat"][case["s"] // 2 % 5]
+            ft = {} if name == "same.cif" else {"filetype": "cif"}
+            pth = os.path.join(d, name)
             with open(pth, "w") as fh:
                 fh.write(t1)
-            Atoms.load(pth)
+            Atoms.load(pth, **ft)
             import contextlib
             with contextlib.redirect_stdout(io.StringIO()):
-                a.save(pth, use_fract_coords=(mode == "fract"))
-            b4 = Atoms.load(pth)
+                a.save(pth, use_fract_coords=(mode == "fract"), **ft)
+            b4 = Atoms.load(pth, **ft)
+            st.seen("explicit_filetype_on_path", name)
             compare_loaded(b4, a, mode, fail2)
             st.count("second_writes_after_edit")
         except Exception as e:
@@ -416,6 +424,8 @@ def requirements(stats, tier):
         need.append("only %d of 18 (cell x mode x placement) classes observed" % stats.nseen("class"))
     if stats.get("second_writes_after_edit") < (60 if tier == "quick" else 20000):
         need.append("second writes of an edited object to an already used path: %d" % stats.get("second_writes_after_edit"))
+    if stats.nseen("explicit_filetype_on_path") < 4:
+        need.append("paths whose extension is not .cif, with filetype='cif': %s" % sorted(stats.sets.get("explicit_filetype_on_path", [])))
     if stats.nseen("extra_columns") < 4:
         need.append("extra columns not observed on all four loops")
     if stats.get("impropers_with_torsion_columns") < 3:
